@@ -28,8 +28,9 @@ import (
 type c15Input struct {
 	Kind     gen.Kind `json:"kind"`
 	DER      []byte   `json:"der"`
-	Encoding string   `json:"encoding"` // pem | pem-leading-text | pem-crlf | der | base64 | base64-wrapped | base64-newline | raw-garbage | truncated | bad-base64 | wrong-pem-type
-	Delivery string   `json:"delivery"` // file | file-suffix | stdin | dash | file-wrong-suffix
+	Encoding string   `json:"encoding"`        // pem | pem-leading-text | pem-crlf | der | base64 | base64-wrapped | base64-newline | raw-garbage | truncated | bad-base64 | wrong-pem-type
+	Delivery string   `json:"delivery"`        // file | file-suffix | stdin | dash | file-wrong-suffix
+	Stdin    string   `json:"stdin,omitempty"` // what descriptor 0 is when the input travels through it: pipe (default) | file | file-offset | socket
 	Base     string   `json:"base,omitempty"`
 }
 
@@ -174,6 +175,7 @@ func judgeC15(rec *stats.Rec, c c15Case, cli, dir string) (string, string) {
 		args = append(args, c.BadFlag)
 	}
 	var stdin []byte
+	stdinKind := ""
 	var files []string
 	format := c.Format
 	expectOK := c.BadFlag == ""
@@ -209,7 +211,7 @@ func judgeC15(rec *stats.Rec, c c15Case, cli, dir string) (string, string) {
 			}
 		}
 		if in.Delivery == "stdin" || in.Delivery == "dash" {
-			stdin = content
+			stdin, stdinKind = content, in.Stdin
 		} else {
 			p := filepath.Join(dir, name)
 			if err := os.WriteFile(p, content, 0o644); err != nil {
@@ -237,7 +239,7 @@ func judgeC15(rec *stats.Rec, c c15Case, cli, dir string) (string, string) {
 		args = append(args, "-")
 	}
 	args = append(args, files...)
-	res := runCLI(cli, stdin, dir, nil, args...)
+	res := runCLIStdin(cli, stdinKind, stdin, dir, nil, args...)
 	if res.Exit == -1 {
 		rec.Class("spawn_failed")
 		return "", ""
@@ -389,12 +391,16 @@ func TestC15(t *testing.T) {
 			v.SetSAN(false, gns...)
 			huge := v.DER()
 			for _, enc := range []string{"pem", "der", "base64", "base64-newline", "base64-wrapped"} {
-				for _, del := range []string{"file", "stdin"} {
+				for _, del := range []string{"file", "stdin", "stdin/file", "stdin/file-offset", "stdin/socket"} {
 					f := map[string]string{"pem": "pem", "der": "der"}[enc]
 					if f == "" {
 						f = "base64"
 					}
-					c := c15Case{Inputs: []c15Input{{Kind: gen.Cert, DER: huge, Encoding: enc, Delivery: del, Base: "huge-san"}}, Format: f, Output: "default", Filter: &engine.FilterSpec{IncludeSources: []string{"RFC5280"}}}
+					skind := ""
+					if i := strings.Index(del, "/"); i > 0 {
+						del, skind = del[:i], del[i+1:]
+					}
+					c := c15Case{Inputs: []c15Input{{Kind: gen.Cert, DER: huge, Encoding: enc, Delivery: del, Stdin: skind, Base: "huge-san"}}, Format: f, Output: "default", Filter: &engine.FilterSpec{IncludeSources: []string{"RFC5280"}}}
 					dir, err := os.MkdirTemp("", "verif-c15-")
 					if err != nil {
 						continue
@@ -463,6 +469,9 @@ func TestC15(t *testing.T) {
 			}
 			if n == 1 {
 				in.Delivery = rapid.SampledFrom([]string{"file", "file-suffix", "stdin", "dash"}).Draw(rt, "delivery")
+				if in.Delivery == "stdin" || in.Delivery == "dash" {
+					in.Stdin = rapid.SampledFrom([]string{"pipe", "pipe", "file", "file-offset", "socket"}).Draw(rt, "stdinkind")
+				}
 			} else {
 				in.Delivery = rapid.SampledFrom([]string{"file", "file-suffix"}).Draw(rt, "delivery")
 			}
@@ -523,6 +532,9 @@ func TestC15(t *testing.T) {
 		for _, in := range c.Inputs {
 			rec.Class("enc_" + in.Encoding)
 			rec.Class("delivery_" + in.Delivery)
+			if in.Stdin != "" {
+				rec.Class("stdin_" + in.Stdin)
+			}
 		}
 		if c.BadFlag != "" {
 			rec.Class("bad_selector")
